@@ -14,7 +14,10 @@ Open Scope list_scope.
    [c_call_unsafe] / [c_call_alters]: the same two markers found on type(obj).__call__ (a callable
    instance whose class decorates __call__). *)
 Record callable := mkCallable { c_id : nat; c_unsafe : bool; c_alters : bool; c_format : bool;
-                                c_call_unsafe : bool; c_call_alters : bool }.
+                                c_call_unsafe : bool; c_call_alters : bool;
+                                c_icall_unsafe : bool; c_icall_alters : bool }.
+(* [c_icall_*]: the markers on the INSTANCE's own __call__ attribute (Context.call uses that attribute when it is
+   decorated with pass_context / pass_eval_context / pass_environment) *)
 
 Inductive cval :=
   | CVData (n : nat)
@@ -24,7 +27,19 @@ Inductive cval :=
 
 (* SandboxedEnvironment.is_safe_callable(obj) — the default predicate *)
 Definition is_safe_callable_default (c : callable) : bool :=
-  negb (c_unsafe c || c_alters c || c_call_unsafe c || c_call_alters c).
+  negb (c_unsafe c || c_alters c || c_call_unsafe c || c_call_alters c || c_icall_unsafe c || c_icall_alters c).
+
+(* functools.partial objects: the partial's own markers and, recursively, the callable it wraps
+       if isinstance(obj, partial) and not self.is_safe_callable(obj.func): return False *)
+Inductive wcallable := WPlain (c : callable) | WPartial (own : callable) (inner : wcallable).
+Fixpoint is_safe_wcallable (w : wcallable) : bool :=
+  match w with
+  | WPlain c => is_safe_callable_default c
+  | WPartial own inner => is_safe_wcallable inner && is_safe_callable_default own
+  end.
+(* the marked callables a (possibly wrapped) callable ends up running *)
+Fixpoint w_runs (w : wcallable) : list callable :=
+  match w with WPlain c => [c] | WPartial own inner => own :: w_runs inner end.
 
 Inductive event :=
   | EvCheck (c : callable) (verdict : bool)     (* is_safe_callable(c) was evaluated *)
